@@ -204,7 +204,8 @@ def mutate(rng, d, m):
         d["frequencies"] = d["frequencies"] + [d["frequencies"][0]]
     elif m == "bad:negative" and isinstance(d.get("frequencies"), list) and d["frequencies"] and not isinstance(d["frequencies"][0], list):
         d["frequencies"][0] = -1; d.pop("errors2", None)
-    elif m == "bad:dimension": d["binnings"] = d["binnings"] + [d["binnings"][0]]
+    elif m == "bad:dimension" and d["histogram_type"] not in ("Histogram1D", "RadialHistogram", "AzimuthalHistogram"):
+        d["binnings"] = d["binnings"] + [d["binnings"][0]]      # (a 1-D class silently reads the first binning only: unspecified, not generated)
     elif m == "bad:dtype": d["dtype"] = rng.choice(["complex128", "str", "datetime64", "U3"])
     elif m == "bad:binning_type": d["binnings"][0]["binning_type"] = rng.choice(["Binning", "staticbinning"])
     elif m == "bad:names_len": d.setdefault("meta_data", {})["axis_names"] = ["q"] * (len(d["binnings"]) + 1)
